@@ -19,6 +19,10 @@ pub const ALPHABET3: &[char] = &['a', 'b', '\u{0}', '\u{1}', '\u{7E}', '\u{7F}',
     '\u{1000}', '\u{CFFF}', '\u{D000}', '\u{D7FF}', '\u{E000}', '\u{FFFD}', '\u{FFFF}', '\u{10000}', '\u{10001}', '\u{3FFFF}', '\u{40000}',
     '\u{FFFFF}', '\u{100000}', '\u{10FFFF}'];
 
+fn capn(x: usize) -> usize {
+    std::cmp::min(x, (1usize << 31) - 1)
+}
+
 fn strings(maxlen: usize) -> Vec<Vec<usize>> {
     let mut all: Vec<Vec<usize>> = vec![vec![]];
     let mut frontier: Vec<Vec<usize>> = vec![vec![]];
@@ -192,6 +196,9 @@ fn c17_with(log: &mut Log, seed: u64, tier: &str, limits: bool) {
         for d in 0..=2u32 {
             let mut limits: Vec<usize> = (1..=12).collect();
             limits.extend(vec![16, 24, 32, 48, 64, 100, 200, 1000, 10000]);
+            // "no limit" and its neighbours (logged capped at 2^31 - 1, the largest number TLC reads;
+            // limit and payload are capped alike, so the comparisons of the specification still hold)
+            limits.extend(vec![1usize << 31, 1 << 40, usize::MAX - 1, usize::MAX]);
             // and every limit just below and at the automaton's real size
             if let Ok(Ok(lev)) = guard(|| Levenshtein::new_with_limit(&text(q), d, 10000)) {
                 let n = tabulate(&lev, 100000).map(|t| t.n).unwrap_or(0);
@@ -204,9 +211,9 @@ fn c17_with(log: &mut Log, seed: u64, tier: &str, limits: bool) {
                 match guard(|| Levenshtein::new_with_limit(&text(q), d, limit)) {
                     Ok(Ok(lev)) => {
                         let reach = tabulate(&lev, 100000).map(|t| t.n - if t.matches.len() > 0 { 1 } else { 0 }).unwrap_or(0);
-                        log.ev(json!({"ev": "LevB", "q": q, "d": d, "limit": limit, "res": "ok", "payload": 0, "reach": reach}));
+                        log.ev(json!({"ev": "LevB", "q": q, "d": d, "limit": capn(limit), "res": "ok", "payload": 0, "reach": reach}));
                     }
-                    Ok(Err(LevenshteinError::TooManyStates(n))) => log.ev(json!({"ev": "LevB", "q": q, "d": d, "limit": limit, "res": "toomany", "payload": n, "reach": 0})),
+                    Ok(Err(LevenshteinError::TooManyStates(n))) => log.ev(json!({"ev": "LevB", "q": q, "d": d, "limit": capn(limit), "res": "toomany", "payload": capn(n), "reach": 0})),
                     Err(p) => log.ev(json!({"ev": "Panic", "in": "new_with_limit", "msg": p})),
                 }
             }
@@ -248,6 +255,50 @@ fn c17_with(log: &mut Log, seed: u64, tier: &str, limits: bool) {
             match guard(|| is_match(&lev, &text(&k))) {
                 Ok(m) => log.ev(json!({"ev": "LevM", "q": q, "d": d, "k": k, "m": m})),
                 Err(p) => log.ev(json!({"ev": "Panic", "in": "is_match", "msg": p})),
+            }
+        }
+    }
+    // automata far above the default state limit (tens of thousands of states and more): long
+    // queries with distance 3 under an explicit limit; verdicts on the query itself and on keys a
+    // few edits away
+    for (i, &(ql, d)) in [(24usize, 3u32), (56, 3), (72, 3), (17, 4)].iter().enumerate() {
+        if !thorough && i == 2 {
+            continue;
+        }
+        let q: Vec<usize> = (0..ql).map(|_| r.gen_range(1, ALPHABET.len() + 1)).collect();
+        let lev = match guard(|| Levenshtein::new_with_limit(&text(&q), d, 3_000_000)) {
+            Ok(Ok(l)) => l,
+            Ok(Err(_)) => continue,
+            Err(p) => {
+                log.ev(json!({"ev": "Panic", "in": "new_with_limit (large)", "msg": p}));
+                continue;
+            }
+        };
+        if std::env::var("FSTV_SIZES").is_ok() {
+            eprintln!("large automaton: query of {} characters, distance {}: {:?} states", ql, d, tabulate(&lev, 2_000_000).map(|t| t.n));
+        }
+        for j in 0..40usize {
+            let mut k = q.clone();
+            for _ in 0..(j % 6) {
+                match r.gen_range(0, 3) {
+                    0 if !k.is_empty() => {
+                        let i = r.gen_range(0, k.len());
+                        k.remove(i);
+                    }
+                    1 => {
+                        let i = r.gen_range(0, k.len() + 1);
+                        k.insert(i, r.gen_range(1, ALPHABET.len() + 1));
+                    }
+                    _ if !k.is_empty() => {
+                        let i = r.gen_range(0, k.len());
+                        k[i] = r.gen_range(1, ALPHABET.len() + 1);
+                    }
+                    _ => {}
+                }
+            }
+            match guard(|| is_match(&lev, &text(&k))) {
+                Ok(m) => log.ev(json!({"ev": "LevM", "q": q, "d": d, "k": k, "m": m, "large": true})),
+                Err(p) => log.ev(json!({"ev": "Panic", "in": "is_match (large)", "msg": p})),
             }
         }
     }
